@@ -343,7 +343,7 @@ fn reg_fields(text: &str) -> Vec<(String, String)> {
             while j < b.len() && (b[j] == ' ' || b[j] == '\t') {
                 j += 1;
             }
-            if j < b.len() && b[j] == ':' {
+            if j < b.len() && (b[j] == ':' || b[j] == '=') {
                 j += 1;
                 while j < b.len() && (b[j] == ' ' || b[j] == '\t') {
                     j += 1;
@@ -555,24 +555,34 @@ pub fn check_c17(case: &Case, h: &History, alts: &[History]) -> Vec<Violation> {
             while i < evs.len() {
                 if let Event::Line { who: Who::Prompt, res: LineRes::Ok(t) } = &evs[i] {
                     if let PromptCmd::Print(cmd) = classify_prompt_line(t) {
-                        // output: printer/prompt records up to the next prompt marker
+                        // the answer: what the printer wrote up to the next read; a report may also
+                        // come from the prompt itself (any of its records that ends a line - the
+                        // prompt marker does not) and may go to either stream
                         let mut out = String::new();
+                        let mut report = String::new();
                         let mut j = i + 1;
                         while j < evs.len() {
                             match &evs[j] {
-                                Event::Rec { origin: Origin::Printer, text, .. } => out.push_str(text),
-                                Event::Rec { origin: Origin::Prompt, text, .. } => {
-                                    if text.starts_with(">>>") || text.trim() == ">>>" {
-                                        break;
+                                Event::Rec { origin: Origin::Printer, text, err, .. } => {
+                                    if *err {
+                                        report.push_str(text)
+                                    } else {
+                                        out.push_str(text)
                                     }
-                                    out.push_str(text)
+                                }
+                                Event::Rec { origin: Origin::Prompt, text, .. } => {
+                                    if text.ends_with('\n') {
+                                        report.push_str(text)
+                                    }
                                 }
                                 Event::Line { .. } => break,
                                 _ => {}
                             }
                             j += 1;
                         }
-                        v.extend(check_print_output(&cmd, &out, &s.regs, &mt.mem, "prompt"));
+                        // a command that had to be reported and was: fine wherever the report went
+                        let shown = if out.trim().is_empty() { report.clone() } else { out.clone() };
+                        v.extend(check_print_output(&cmd, &shown, &s.regs, &mt.mem, "prompt"));
                     }
                 }
                 i += 1;
@@ -586,10 +596,18 @@ pub fn check_c17(case: &Case, h: &History, alts: &[History]) -> Vec<Violation> {
                     if let Some(cmd) = lines.get(ln - 1).and_then(|l| find_print_in_source(l)) {
                         let last_session_end = sessions.last().map(|p| p.to).unwrap_or(0);
                         let mut out = String::new();
+                        let mut report = String::new();
                         for e in &s.events[last_session_end..] {
-                            if let Event::Rec { origin: Origin::Printer, text, .. } = e {
-                                out.push_str(text);
+                            if let Event::Rec { origin: Origin::Printer, text, err, .. } = e {
+                                if *err {
+                                    report.push_str(text);
+                                } else {
+                                    out.push_str(text);
+                                }
                             }
+                        }
+                        if out.trim().is_empty() {
+                            out = report;
                         }
                         // a statement whose run ended at the prompt before it (quit / EOF) has no output
                         if s.followed || matches!(h.ended(), Some(Event::Return)) {
@@ -986,6 +1004,7 @@ pub fn program_output(h: &History) -> String {
     let (prefix, segs) = segments(h);
     for e in prefix {
         if let Event::Rec { text, .. } = e {
+            // (both streams: a diagnostic is program output wherever it is written)
             out.push_str(text);
         }
     }
